@@ -324,6 +324,16 @@ fn apply(st: &mut State, step: &Step, cell: &mut Option<u64>) -> Result<StepOut,
             count_borrowed(st, ctxsel, &la);
             compare_logs(&la, &lb, &what)?;
             let real = !matches!(ra, Ret::NoSuchMethod | Ret::NotImpl);
+            if real && meth.name == "c_mut_replace" {
+                // the wrapper this borrowed return made was moved out and dropped by the caller:
+                // its clone is not among those a temporary slot may still keep alive
+                match ctxsel {
+                    1 | 3 => st.leaked_arc -= 1,
+                    2 => st.leaked_plain -= 1,
+                    _ => {}
+                }
+                counts.push("fault.borrowed_wrapper_moved_out_and_dropped".into());
+            }
             if real {
                 if let Some(first) = la.first() {
                     vcheck!(first.method == meth.logged_as, "obj.wrong_method", &what, "{}: calling `{}` reached `{}`", what, meth.name, first.method);
